@@ -20,6 +20,7 @@ import Ogen.UnixTime_proof
 import Ogen.FloatValidateModel
 import Ogen.JsonCodecDriver
 import Ogen.GenOrderDriver
+import Ogen.AuthHeaderDriver
 
 /-! Line-protocol driver over all executable models: `<model> <payload>` per line, one
     canonical output line per input line. Core-only (no Mathlib) so it links natively. -/
@@ -69,6 +70,7 @@ def dispatch (line : String) : String :=
     | "vfloat" => FloatV.floatLine payload
     | "jcodec" => JCodecDrv.codecLine payload
     | "jaccept" => JCodecDrv.acceptLine payload
+    | "authz" => AuthHDrv.authzLine payload
     | "sortkeys" => GenOrderDrv.sortkeysLine payload
     | "collect" => GenOrderDrv.collectLine payload
     | "writers" => GenOrderDrv.writersLine payload
